@@ -21,7 +21,7 @@
 (***************************************************************************)
 EXTENDS Integers, Sequences, TLC, Json, IOUtils
 
-ASSUME TLCSet(5, Norm(ndJsonDeserialize(IOEnv.VERIF_TRACE)))
+ASSUME TLCSet(5, ndJsonDeserialize(IOEnv.VERIF_TRACE))
 Trace == TLCGet(5)
 Tids == 1..8
 AtomIds == 1..4
